@@ -44,7 +44,7 @@ pub fn encode_ty(ty: &tast::Ty) -> String {
 }
 
 pub fn go_ident(name: &str) -> String {
-    if is_valid_go_ident(name) && !is_go_keyword(name) {
+    if is_valid_go_ident(name) && !is_go_keyword(name) && !is_reserved_by_output(name) {
         return name.to_string();
     }
     let mut out = String::from("_goml_");
@@ -81,6 +81,29 @@ fn is_valid_go_ident(s: &str) -> bool {
         return false;
     }
     rest.iter().all(|b| b.is_ascii_alphanumeric() || *b == b'_')
+}
+
+fn is_reserved_by_output(s: &str) -> bool {
+    matches!(
+        s,
+        "any"
+            | "append"
+            | "cap"
+            | "copy"
+            | "false"
+            | "fmt"
+            | "init"
+            | "iota"
+            | "len"
+            | "main0"
+            | "make"
+            | "new"
+            | "nil"
+            | "panic"
+            | "print"
+            | "println"
+            | "true"
+    )
 }
 
 fn is_go_keyword(s: &str) -> bool {
